@@ -150,10 +150,11 @@ class Replayer:
 				fail('output-body', f'output of {m}: text differs from what the spec state {spec["body"]} denotes: {real["body"][-80:]!r} vs {expect_body[-80:]!r}')
 			if op['name'] == 'run' and obs['res'] == 'ok':
 				# property clauses, judged against tranp's own cold/forced result for the CURRENT sources
-				cold_vector = {d: to['src'][d] for d in spec['body']}
+				from harness.fs_binding import BODY_CLASS
+				cold_vector = {d: BODY_CLASS[to['src'][d]] for d in spec['body']}
 				cold_body = self.oracle.body(m, cold_vector)
 				if m in op['selected'] and real['body'] != cold_body:
-					stale = sorted(d for d in spec['body'] if spec['body'][d] != to['src'][d])
+					stale = sorted(d for d in spec['body'] if spec['body'][d] != BODY_CLASS[to['src'][d]])
 					self.stats['stale_reproduced'] += 1
 					self.failures.append({'kind': 'property', 'clause': 'WarmEqualsCold' if op['enabled'] else 'RunEqualsForced', 'detail': f'{m}: output after run differs from a cold/forced run for the current sources; derived from stale {stale}', 'op': 'run', 'history': list(history), 'shape': self.shape(m, stale, op)})
 				if m not in op['selected']:
@@ -161,7 +162,7 @@ class Replayer:
 					if before is None or before['text'] != real['text'] or before['mtime_ns'] != real['mtime_ns']:
 						self.failures.append({'kind': 'property', 'clause': 'Untouched', 'detail': f'{m} needed no regeneration but its file changed', 'op': 'run', 'history': list(history), 'shape': 'untouched-changed'})
 					elif real['body'] != cold_body or real['header']['module']['hash'] != source_hash(self.graph, m, to['src'][m]):
-						stale = sorted(d for d in spec['body'] if spec['body'][d] != to['src'][d])
+						stale = sorted(d for d in spec['body'] if spec['body'][d] != BODY_CLASS[to['src'][d]])
 						self.stats['stale_reproduced'] += 1
 						self.failures.append({'kind': 'property', 'clause': 'RunEqualsForced', 'detail': f'{m} was not regenerated although a forced run would write different content; stale {stale}', 'op': 'run', 'history': list(history), 'shape': self.shape(m, stale, op)})
 		# cache files
